@@ -16,7 +16,7 @@ def build(extra_env=None, cfgs=()):
     lock = os.path.join(HARNESS, 'Cargo.lock')
     if not os.path.exists(lock):
         import shutil; shutil.copy('/repo/Cargo.lock', lock)
-    tdir = os.path.join(HARNESS, 'target' + ('-' + '-'.join(cfgs) if cfgs else ''))
+    tdir = os.environ.get('VERIF_HARNESS_TARGET_DEV') or os.path.join(HARNESS, 'target' + ('-' + '-'.join(cfgs) if cfgs else ''))   # env override: development aid only
     p = subprocess.run(['cargo', 'build', '--release', '--offline', '--target-dir', tdir], cwd=HARNESS, env=env,
                        stdout=subprocess.PIPE, stderr=subprocess.PIPE)
     if p.returncode != 0:
@@ -26,7 +26,7 @@ def build(extra_env=None, cfgs=()):
 
 def search(pid, kind, seconds, seed):
     exe = build()
-    p = subprocess.run([exe, 'explore', pid, str(seconds), str(seed + 1)], stdout=subprocess.PIPE, stderr=subprocess.PIPE, timeout=seconds + 120)
+    p = subprocess.run([exe, 'explore', pid, str(seconds), str(seed + 1)], stdout=subprocess.PIPE, stderr=subprocess.PIPE, timeout=5 * seconds + 120)
     out = p.stdout.decode()
     m = re.search(r'^WITNESS (\{.*\})$', out, re.M)
     if m:
